@@ -158,7 +158,7 @@ pub fn is_edit(k: Kind) -> bool {
 pub fn is_constructor(k: Kind) -> bool {
     matches!(
         k,
-        Kind::Zeros | Kind::Ones | Kind::Repeat | Kind::WithCapacity | Kind::FromBytes | Kind::FromBinary | Kind::FromHex | Kind::FromUint | Kind::Collect
+        Kind::Zeros | Kind::Ones | Kind::Repeat | Kind::WithCapacity | Kind::FromBytes | Kind::FromBinary | Kind::FromHex | Kind::FromUint | Kind::FromSlice | Kind::Collect
     )
 }
 pub fn is_workload(k: Kind) -> bool {
@@ -176,7 +176,7 @@ pub fn c19_must_panic(k: Kind) -> bool {
 }
 /// operations C19 names as returning an error beyond a fixed capacity
 pub fn c19_must_err(k: Kind) -> bool {
-    matches!(k, Kind::FromBytes | Kind::FromBinary | Kind::FromHex | Kind::FromUint)
+    matches!(k, Kind::FromBytes | Kind::FromBinary | Kind::FromHex | Kind::FromUint | Kind::FromSlice)
 }
 
 include!("exec_step.rs");
